@@ -96,6 +96,8 @@ pub struct View {
     pub avail: Vec<usize>,
     pub now: u64,
     pub depth: usize,
+    /// the action history that led here (filled for state oracles)
+    pub hist: Vec<Act>,
 }
 
 impl View {
@@ -110,6 +112,7 @@ impl View {
             avail: w.conns.iter().map(|c| c.avail).collect(),
             now: w.now,
             depth,
+            hist: vec![],
         }
     }
     /// nick of slot i if it is a registered, live connection
@@ -421,7 +424,8 @@ fn expand(scn: &dyn Scenario, hist: &[Act], key: u128, want_sample: bool) -> Exp
         ex.machinery = Some(format!("replay divergence: state key differs on rebuild (history {:?})", hist.iter().map(|a| a.render()).collect::<Vec<_>>()));
         return ex;
     }
-    let view = View::of(&mut w, depth);
+    let mut view = View::of(&mut w, depth);
+    view.hist = hist.to_vec();
     // state oracle
     let mut st = (0u64, 0u64);
     for f in scn.state_oracle(&mut w, &view, &mut ex.goals) {
@@ -717,7 +721,8 @@ fn expand_leaf(scn: &dyn Scenario, hist: &[Act], key: u128) -> Expansion {
         ex.machinery = Some(format!("replay divergence at leaf (history {:?})", hist.iter().map(|a| a.render()).collect::<Vec<_>>()));
         return ex;
     }
-    let view = View::of(&mut w, depth);
+    let mut view = View::of(&mut w, depth);
+    view.hist = hist.to_vec();
     let mut st = (0u64, 0u64);
     for f in scn.state_oracle(&mut w, &view, &mut ex.goals) {
         ex.violations.push(Violation {
